@@ -1,7 +1,7 @@
 (* C04 — Nothing is served past its lifetime; composed answers inherit the
    shortest part.  Property theorems over the model (Model.v), each proved in
    Proofs*.v; non-trivial instances are in Proofs_Examples.v. *)
-From Sdns Require Import Common.Base Gen.C04 C04.Model C04.Run C04.Proofs C04.Proofs_Store C04.Proofs_Tree C04.Proofs_Index C04.Proofs_Dns64.
+From Sdns Require Import Common.Base Gen.C04 C04.Model C04.Run C04.Proofs C04.Proofs_Store C04.Proofs_Tree C04.Proofs_Index C04.Proofs_Dns64 C04.Proofs_Calc.
 Open Scope Z_scope.
 
 (* In every history of client queries (hits on any route, alias chases through
@@ -119,6 +119,25 @@ Theorem admit_ttl_bounds :
           admit_ttl cls rrs now scoped ecs <= Z.max min_cache_ttl x).
 Proof. exact admit_ttl_bounds_l. Qed.
 
+(* The admission-TTL model IS the source (session 5): dnsutil.CalculateCacheTTL with hasRecords,
+   getTTL, getRRSIGTTL and its three section loops, translated from the Go AST by srcgen
+   (Gen/C04.v: dns.RR as a sum type, the time.Now() reading as a parameter), equals the
+   hand-written calc_cache_ttl on the view rrs_of_msg of the message -- for EVERY message
+   (records of any dynamic type in any section), every ResponseType and every clock reading.
+   Hence admit_ttl_bounds above speaks about the translated code: store admission
+   (TTLManager.Calculate, also translated, then the ECS cap) of the code's own value is
+   admit_ttl, and every term the statement names bounds it except through the 5 s floor. *)
+Theorem calculate_cache_ttl_is_source :
+  forall now msg cls,
+    go_CalculateCacheTTL now msg (code_of_cls cls) = calc_cache_ttl cls (rrs_of_msg msg) now
+    /\ (forall scoped ecs,
+          cap_ttl scoped ecs (go_TTLManager_Calculate ttl_manager (go_CalculateCacheTTL now msg (code_of_cls cls)))
+          = admit_ttl cls (rrs_of_msg msg) now scoped ecs)
+    /\ min_cache_ttl <= go_CalculateCacheTTL now msg (code_of_cls cls) <= max_cache_ttl
+    /\ (forall r x, ttl_class cls = true -> In r (rrs_of_msg msg) -> In x (rr_terms (neg_class cls) now r) ->
+          go_CalculateCacheTTL now msg (code_of_cls cls) <= Z.max min_cache_ttl x).
+Proof. exact calculate_cache_ttl_is_source_l. Qed.
+
 (* cuts and proofs: the plain minimum of every term and the lease, no floor *)
 Theorem cut_no_floor :
   forall mx st sm proof cut now wall ex,
@@ -190,7 +209,6 @@ Theorem dns64_relayed_inherits :
             | PFresh t _ => x = t
             end)
     /\ length (dns64_relay_ttls recs now) = length recs
-    /\ dns64_basis_reply recs now = dns64_relay_ttls recs now
     /\ dns64_ptr_reply recs now = 600 :: dns64_relay_ttls recs now
     /\ (forall p d, In p consulted -> piece_fold p = Some d -> ole (dns64_bound None consulted) d)
     /\ (forall e, In (PHit e) consulted -> ole (dns64_bound None consulted) (entry_end e))
@@ -198,18 +216,29 @@ Theorem dns64_relayed_inherits :
           entry_end a <= d).
 Proof. exact dns64_relayed_inherits_l. Qed.
 
-(* ... but the A-basis reply itself is NOT inside the lifetime of the cached AAAA answer
-   that gated it (the statement's "replies composed from several cached pieces inherit
-   the shortest lifetime among the pieces", read with the gate as a piece): computed
-   witness, replayed on the Go code by corpus/C04/dns64relay.jsonl -- finding
-   dns64-abasis-gate (KNOWN_FINDINGS.txt; repair proposed in props/C04/fix2.patch). *)
-Theorem dns64_basis_outlives_gate_refuted :
-  let now := 4 * second in
-  now < entry_end basis_gate /\ now < entry_end basis_a
-  /\ dns64_basis_reply [PHit basis_a] now = [3598]
-  /\ 3598 * second > remaining basis_gate now
-  /\ dns64_bound None [PHit basis_gate; PHit basis_a] = Some (entry_end basis_gate).
-Proof. exact dns64_basis_outlives_gate. Qed.
+(* The A-basis reply (buildAResponseAsBasis as repaired by 1a0e74f; the former finding
+   dns64-abasis-gate): composed from the AAAA answer that gated it and the answers of the A
+   chase, for every clock reading every relayed TTL is inside what is left of EVERY consulted
+   answer's deadline -- the gate included; cached: its end, fresh: its lease --, not above
+   the TTL shown by the answer it was copied from (cached: inside that entry's lifetime),
+   not negative, and unchanged when no consulted answer reports a deadline.  What the cap
+   prevents: Example dns64_basis_uncapped_outlives_gate (Proofs_Dns64.v), replayed on the Go
+   code by corpus/C04/dns64relay.jsonl (scenarios abasis-gate-…) as strict regression cases. *)
+Theorem dns64_basis_inherits_min :
+  forall recs consulted now,
+    length (dns64_basis_reply recs consulted now) = length recs
+    /\ (forall i q, nth_error recs i = Some q ->
+          exists x, nth_error (dns64_basis_reply recs consulted now) i = Some x
+            /\ (forall p d, In p consulted -> piece_fold p = Some d -> x * second <= Z.max 0 (d - now))
+            /\ (forall e, In (PHit e) consulted -> now < entry_end e -> x * second <= entry_end e - now)
+            /\ x <= piece_ttl q now
+            /\ (0 <= piece_ttl q now -> 0 <= x)
+            /\ match q with
+               | PHit e => now < entry_end e -> x * second <= entry_end e - now
+               | PFresh t _ => x <= t
+               end
+            /\ (dns64_bound None consulted = None -> x = piece_ttl q now)).
+Proof. exact dns64_basis_inherits_min_l. Qed.
 
 (* The denial rung inside a request tree (RFC 8198 proof index / subtree cut,
    Cache.lookupDenialProof / lookupNXDomainCut + boundRequestTo): a synthesised
@@ -225,6 +254,30 @@ Theorem denial_rung_inherits :
     /\ mle (denial_rung_bound m d lease) m
     /\ (forall e, e_cut e = denial_rung_bound m d lease -> entry_end e <= d).
 Proof. exact denial_rung_inherits_l. Qed.
+
+(* A subtree cut RE-recorded during a request tree from the denial the rung synthesised out of
+   an older cut (Cache.WriteMsg -> Store.RecordNXDomainCut with the request's bound as the lease,
+   session 5): for every older deadline d, everything folded into the tree before (m) and after
+   (lease), every content of the synthesised records and every clock reading, the new cut ends
+   no later than d and than the tree's bound, is recorded only with time left, and -- no floor --
+   lies inside every term of the records it was recorded with; the expiry is monotone in the
+   lease, so a lease anywhere between the bound the whole tree is left with (b) and d gives an
+   expiry between the two extremes (what check_case CCutRerec tests). *)
+Theorem cut_rerecorded_inherits :
+  forall mx st sm proof m d lease now wall ex,
+    cut_record mx st sm proof (denial_rung_bound m d lease) now wall = Some ex ->
+    ex <= d /\ now < ex
+    /\ (forall c, denial_rung_bound m d lease = Some c -> ex <= c)
+    /\ ex - now <= mx /\ ex - now <= st * second /\ ex - now <= sm * second
+    /\ (forall r c, In r proof -> In c (prr_cands wall r) -> ex - now <= c).
+Proof. exact cut_rerecorded_inherits_l. Qed.
+Theorem cut_rerecord_between :
+  forall mx st sm proof b c d now wall ex,
+    b <= c -> c <= d ->
+    cut_record mx st sm proof (Some c) now wall = Some ex ->
+    (exists hi, cut_record mx st sm proof (Some d) now wall = Some hi /\ ex <= hi)
+    /\ (forall lo, cut_record mx st sm proof (Some b) now wall = Some lo -> lo <= ex).
+Proof. exact cut_rerecord_sandwich. Qed.
 
 Print Assumptions no_service_past_end.
 Print Assumptions cut_no_service_past_end.
@@ -244,4 +297,7 @@ Print Assumptions dns64_composed_inherits_min.
 Print Assumptions dns64_rfc_ttl_alone_refuted.
 Print Assumptions denial_rung_inherits.
 Print Assumptions dns64_relayed_inherits.
-Print Assumptions dns64_basis_outlives_gate_refuted.
+Print Assumptions dns64_basis_inherits_min.
+Print Assumptions cut_rerecorded_inherits.
+Print Assumptions cut_rerecord_between.
+Print Assumptions calculate_cache_ttl_is_source.
